@@ -126,7 +126,7 @@ class Spec:
                 phase = "pre"
                 for p in parts[2:]:
                     if p.startswith("count="):
-                        count = int(p[6:])
+                        count = "*" if p[6:] == "*" else int(p[6:])
                     elif p.startswith("phase="):
                         phase = p[6:]
                 i += 1
